@@ -15,7 +15,8 @@ EXPLANATION = (
     ' no-residue: the per-thread recursion budget of the checker/evaluator is given back on every exit, so a refused replacement leaves no state behind.'
     ' validate-complete: the checker of every builtin admits no more operand kinds than its evaluator handles (so an ill-typed replacement is refused).'
     ' success-without-swap: every Ok return of set_rules passes the write that replaces the list.'
-    " posted-list: the list post_rules hands to set_rules is the extractor's payload itself (moved or cloned), not the result of a call, and not truncated / reordered before.")
+    " posted-list: the list post_rules hands to set_rules is the extractor's payload itself (moved or cloned), not the result of a call, and not truncated / reordered before."
+    ' validate-complete also includes T-acc: the checker declares exactly the request attributes the evaluator produces.')
 RULE_TEXT = "instances = writers of the rule list, exits of set_rules, guards in process_request, serde fields"
 TRUSTED = ["tokio RwLock gives writers exclusive access", "serde derives honour the field attributes"]
 NOT_DECIDED = ["linearisation under the actual scheduler (argued from 1-3 and RwLock semantics; not model-checked)"]
@@ -31,6 +32,9 @@ def run(chk, prog):
     # a replacement is refused when one of its filters is ill-typed: that needs a checker that admits no more than the evaluator handles
     from . import c08 as _c08
     _c08.rule_variants(chk, prog, "validate-complete")
+    # ... and the checker knows exactly the request attributes the evaluator can produce (a filter reading `request.target.hostname`
+    # must be refused when posted, not fail on every request afterwards)
+    _c08.rule_acc(chk, prog, "validate-complete")
     # ---------------------------------------------------------------- (1) single writer
     writers = []
     for f in prog.fns.values():
